@@ -5,4 +5,5 @@ import MJ.Props.C18
 #print axioms MJ.C18.nested_reported_are_paths
 #print axioms MJ.C18.macro_body_asks_nothing
 #print axioms MJ.C18.expression_code_binds_nothing
+#print axioms MJ.C18.builtins_do_not_read_context
 #print axioms MJ.C18.analysis_no_panic
